@@ -98,7 +98,8 @@ pub fn run_request(web: WebServer, prep: &Prepared) -> std::thread::Result<RawRe
                 rq = rq.insert_header(("Content-Type", ct));
             }
             for (n, v) in &extra {
-                rq = rq.insert_header((n.as_str(), v.as_str()));
+                // (a further header line: it does not replace one of the same name)
+                rq = rq.append_header((n.as_str(), v.as_str()));
             }
             let req = if chunks.len() <= 1 && !broken {
                 // what a real client sends with a body of known length
@@ -314,8 +315,11 @@ impl HCtx {
         let cu = self.l1.client(c);
         let cc = self.l1.canon.id(cu);
         let vn = self.l1.canon.id(i.version);
-        self.l1.accepted.entry(c).or_default().push((i.version, Uuid::nil()));
         let cd = self.l1.canon.payload(&data);
+        if i.snap.is_some() {
+            return vec![format!("OP as {cc} {vn} {now} {cd}"), format!("R {}", if i.failed { "error" } else { "snapack" })];
+        }
+        self.l1.accepted.entry(c).or_default().push((i.version, Uuid::nil()));
         vec![format!("OP ensure {cc}"), "R unit".into(), format!("OP av {cc} 0 {vn} {now} {cd}"),
              format!("R {}", if i.failed { "error".to_string() } else { format!("added {vn} high") })]
     }
@@ -463,7 +467,16 @@ impl HCtx {
             route_class: route_class.to_string(),
             seg_class,
             cid_class,
-            extra: toks.get(6).and_then(|t| t.strip_prefix("xh=")).map(extra_headers).unwrap_or_default(),
+            extra: match toks.get(6).and_then(|t| t.strip_prefix("xh=")) {
+                // dupcid:K — a SECOND X-Client-Id line, naming client K (a proxy that adds its own, a client that
+                // sends two): the request is the first line's
+                Some(k) if k.starts_with("dupcid:") => {
+                    let c: u32 = k[7..].parse().unwrap();
+                    vec![("X-Client-Id".to_string(), self.l1.client(c).hyphenated().to_string())]
+                }
+                Some(k) => extra_headers(k),
+                None => vec![],
+            },
             pause_ms,
         }
     }
@@ -570,6 +583,17 @@ impl HCtx {
                 let sched: Vec<String> = sched_s.split_whitespace().map(|x| x.to_string()).collect();
                 self.conc(mode, reqs, sched);
             }
+            ["intrude", n, c, "snap", vspec, pl] => {
+                // ... or (snap SPEC): the other instance stores a snapshot for version SPEC of client C — a version the
+                // acceptance rule admits (the case sees to that), stamped with the current time
+                let c: u32 = c.parse().unwrap();
+                let cu = self.l1.client(c);
+                let sv = self.l1.resolve(vspec);
+                let data = self.l1.payload(pl);
+                let st = self.l1.store.as_ref().expect("intrude needs the wrapper").clone();
+                *st.intrude.lock().unwrap() = Some(crate::store::Intrude { at_begin: n.parse().unwrap(), client: cu, version: sv, data: data.clone(), snap: Some(sv), seen: 0, fired: false, failed: false });
+                self.intr = Some((c, data));
+            }
             ["intrude", n, c, pl] => {
                 // intrude N C PAYLOAD: before the N-th transaction begin from now (0 = the next one), another instance
                 // uploads client C's first version (parent nil, PAYLOAD), creating the client if need be
@@ -577,7 +601,7 @@ impl HCtx {
                 let cu = self.l1.client(c);
                 let data = self.l1.payload(pl);
                 let st = self.l1.store.as_ref().expect("intrude needs the wrapper").clone();
-                *st.intrude.lock().unwrap() = Some(crate::store::Intrude { at_begin: n.parse().unwrap(), client: cu, version: Uuid::new_v4(), data: data.clone(), seen: 0, fired: false, failed: false });
+                *st.intrude.lock().unwrap() = Some(crate::store::Intrude { at_begin: n.parse().unwrap(), client: cu, version: Uuid::new_v4(), data: data.clone(), snap: None, seen: 0, fired: false, failed: false });
                 self.intr = Some((c, data));
             }
             ["fixture", _name] | ["deadstart", _name] => {
